@@ -298,6 +298,12 @@ PROPS["C11"] = {
     "outside": "time, sweeper interleavings, recovery, insert_with_ttl's non-Bytes twin (same expression, not separately encoded)",
 }
 
+PROPS["C03"]["smt"] = "c03"
+PROPS["C03"]["engine_name"] = "E1-kani + E2-mir-smt"
+PROPS["C03"]["technique"] += "; SMT (z3) over the MIR of one arbitrary iteration of the recovery scan loop"
+PROPS["C03"]["level_text"] += " z3-decided over MIR: one ARBITRARY iteration of scan_and_rebuild_indexes (all locals havocked at the loop header, ~670 paths): every path back to the header advanced `sector`; a path that accepted a record (header parsed, extent in bounds, token verified) advances by exactly the record's extent length, winner or loser, so the scan never steps into the middle of a verified extent; timestamps are folded into the version clock before the index is updated."
+PROPS["C03"]["level_note"] = "Kernel obligations plus a one-iteration (inductive-step) analysis of the scan loop; " + E2NOTE + ". Crash images, winner selection across iterations, journal replay order and slot selection are outside the claim."
+PROPS["C03"]["functions"] += [REC + "::scan_and_rebuild_indexes"]
 PROPS["C17"]["smt"] = "c17"
 PROPS["C17"]["engine_name"] = "E1-kani + E2-mir-smt"
 PROPS["C17"]["technique"] += "; SMT (z3) over the MIR of allocation_journal::decode_slot: every explicit panic site unreachable for arbitrary slot contents"
